@@ -17,7 +17,7 @@ CHECKS = {
         note="Sequentially consistent interleavings only; thread counts <=4; digest completeness for the cyclic runs."),
     "C15": dict(
         engine="rsched", technique="preemption-bounded exhaustive interleaving exploration of the real lock-free queue + stateful "
-        "complete-state search, linearizability-style oracle from call/return stamps; plus deviation-bounded exploration of the queue inside the whole runtime (start-up/shutdown barriers, LP_INIT inserts)",
+        "complete-state search, linearizability-style oracle from call/return stamps; plus deviation-bounded exploration of the queue inside the whole runtime (start-up/shutdown barriers, LP_INIT inserts; plain accesses to shared static storage as scheduling points)",
         level="model_checking", design_ref="DESIGN.md 4/C15",
         text="Every schedule with <=2 preemptions (atomic-operation and call granularity) of 1-3 producers against every consumer "
              "operation string in {extract,peek}^5 plus drain, ties and a pre-cancelled entry included; complete state graph for "
@@ -87,7 +87,7 @@ CHECKS = {
              "sequences equal to the reference, non-decreasing timestamps, nothing skipped before the stop point, justified and not-early "
              "stop, LP_FINI once per LP last.",
         note="Reference shares the handler and msg_is_before with the runtime (C16 covers the relation)."),
-    "C01": dict(engine="rsched", technique="preemption/deviation-bounded exhaustive exploration of the real runtime under a deterministic scheduler (fork per execution, delay-bounded levels) + complete-state search (stateful exploration, no deviation bound) of the real process_msg/fossil step function over every delivery order and legal GVT announcement (h_proc); reference executor as oracle", level="model_checking", design_ref="DESIGN.md 4/C01",
+    "C01": dict(engine="rsched", technique="preemption/deviation-bounded exhaustive exploration of the real runtime under a deterministic scheduler (fork per execution, delay-bounded levels) (incl. a build in which plain accesses to shared static storage are scheduling points) + complete-state search (stateful exploration, no deviation bound) of the real process_msg/fossil step function over every delivery order and legal GVT announcement (h_proc); reference executor as oracle", level="model_checking", design_ref="DESIGN.md 4/C01",
         text="Every schedule with <=1 non-default decision (2 on two models; thorough 2-3) of RootsimRun on 12 rollback-heavy models x "
              "configurations (threads 2-3, checkpoint interval 1-3/auto, GVT period 0/never) + 50 (thorough 3000) grammar models at p=0: "
              "end state, every committed event and state hash, state after every rollback equal the sequential reference.",
@@ -110,7 +110,7 @@ CHECKS = {
              "below it queued or in flight at the moment it is told; plus a stateful complete-state search of gvt.c + the real queue "
              "under a cyclic main-loop-shaped driver (h_gvt; thorough: closed state graph of the smallest configuration).",
         note="Sequentially consistent interleavings; relaxed orderings not modelled; rank-level colouring under C02."),
-    "C06": dict(engine="rsched", technique="preemption/deviation-bounded exhaustive exploration of the real runtime under a deterministic scheduler (fork per execution, delay-bounded levels) with the message flag words and queue atomics as scheduling points; buffer life-cycle monitor",
+    "C06": dict(engine="rsched", technique="preemption/deviation-bounded exhaustive exploration of the real runtime under a deterministic scheduler (fork per execution, delay-bounded levels) with the message flag words and queue atomics as scheduling points (incl. a build in which plain accesses to shared static storage are scheduling points); buffer life-cycle monitor",
         level="model_checking", design_ref="DESIGN.md 4/C06",
         text="Cancellation racing with extract/process/rollback/re-queue (all four positions observed), cascades, 40-byte payloads, remote "
              "cancellation incl. early anti-messages on 2 ranks: no double/early release, no use after release, exactly-once effects via "
